@@ -13,7 +13,7 @@ import (
 func main() {
 	core.Main("DEV", func(c *core.Ctx) {
 		th := c.Thorough() || len(os.Args) > 3 && os.Args[1] != "--tier"
-		for _, f := range append(append(families.All(th), families.Deep(th)...), families.HTTPLevel(th)...) {
+		for _, f := range append(append(append(families.All(th), families.Deep(th)...), families.HTTPLevel(th)...), families.OpSequences()) {
 			if f.Name != os.Args[len(os.Args)-1] {
 				continue
 			}
